@@ -404,6 +404,41 @@ fn brute_round_simplest(f: &Q, ulp: &Q, b: i128, p: u32, mode: usize) -> Q {
     unreachable!("f itself converts back to f")
 }
 
+/// Same answer as `brute_round_simplest`, derived analytically: the set { x : refround(x) = f } is
+/// an interval whose end points are among { neighbour below, midpoint below, f, midpoint above,
+/// neighbour above }; which of them, and whether they belong to the set, is decided by probing
+/// `refround` itself, then the continued-fraction reference picks the simplest fraction inside.
+/// Used for significands that are too long for the denominator scan; on the closed universes both
+/// oracles are computed and must agree (machinery error otherwise).
+fn fast_round_simplest(f: &Q, ulp: &Q, b: i128, p: u32, mode: usize) -> BQ {
+    let rep = |x: &Q| refround(x, b, p, mode) == *x;
+    let fine = Q::new(ulp.n, mul(ulp.d, b)); // spacing on the zero side of a power of the base
+    let up = { let c = f.add(&fine); if rep(&c) && c != *f { c } else { f.add(ulp) } };
+    let down = { let c = f.sub(&fine); if rep(&c) && c != *f { c } else { f.sub(ulp) } };
+    let two = Q::int(2);
+    let mid = |a: &Q, c: &Q| Q::new(mul(a.n, c.d) + mul(c.n, a.d), mul(mul(a.d, c.d), two.n));
+    let (mdown, mup) = (mid(&down, f), mid(f, &up));
+    let goes = |x: &Q| refround(x, b, p, mode) == *f;
+    // a point strictly inside (a, c), close to a
+    let just_above = |a: &Q, c: &Q| { let d = c.sub(a); a.add(&Q::new(d.n, mul(d.d, 1000))) };
+    let just_below = |a: &Q, c: &Q| { let d = c.sub(a); c.sub(&Q::new(d.n, mul(d.d, 1000))) };
+    let (lo, il) = if goes(&just_above(&down, &mdown)) {
+        (down.clone(), false)
+    } else if goes(&just_above(&mdown, f)) {
+        (mdown.clone(), goes(&mdown))
+    } else {
+        (f.clone(), true)
+    };
+    let (hi, ih) = if goes(&just_below(&mup, &up)) {
+        (up.clone(), false)
+    } else if goes(&just_below(f, &mup)) {
+        (mup.clone(), goes(&mup))
+    } else {
+        (f.clone(), true)
+    };
+    fast_simplest(&lo.big(), &hi.big(), il, ih)
+}
+
 // ---------------------------------------------------------------------------------------------
 // dashu calls for FBig<R, B>
 
@@ -1096,6 +1131,24 @@ pub fn run(ctx: &mut Ctx) {
             }
         }
     }
+    // long significands just below / above a power of the base (where digit-count estimates such
+    // as digits_ub() are off by one)
+    for k in [20u32, 21, 24] {
+        for d in [1i128, 3] {
+            for e in [-(k as i32), -(k as i32) + 1, -3] {
+                fvals.push((2, (1i128 << k) - d, e));
+                fvals.push((2, -((1i128 << k) - d), e));
+                fvals.push((2, (1i128 << (k - 1)) + d, e));
+            }
+        }
+    }
+    for k in [6u32, 8] {
+        for e in [-(k as i32), -2] {
+            fvals.push((10, 10i128.pow(k) - 1, e));
+            fvals.push((10, -(10i128.pow(k) - 3), e));
+            fvals.push((10, 10i128.pow(k - 1) + 1, e));
+        }
+    }
     fvals.sort_by_key(|&(b, s, e)| (funi.iter().position(|u| u.0 == b), s.abs(), e.abs(), s < 0, e < 0));
     let nv = fvals.len() as u64;
     let fv = &fvals;
@@ -1108,7 +1161,28 @@ pub fn run(ctx: &mut Ctx) {
         let f = Q::new(s, 1);
         let f = if e >= 0 { Q::new(mul(f.n, bb.pow(e as u32)), 1) } else { Q::new(s, bb.pow((-e) as u32)) };
         let ulp = bpow(bb, e + digits as i32 - p as i32);
-        let want = brute_round_simplest(&f, &ulp, bb, p, m);
+        let long = s.abs() >= 1 << 15;
+        let fast = fast_round_simplest(&f, &ulp, bb, p, m);
+        let want = if long {
+            match fast.small() {
+                Some(q) => q,
+                None => {
+                    rec.hit("skipped:expected-fraction-too-large-for-i128");
+                    return;
+                }
+            }
+        } else {
+            let w = brute_round_simplest(&f, &ulp, bb, p, m);
+            if w.big() != fast {
+                // the two oracles disagree: never a verdict on the library
+                rec.hit("MACHINERY:oracles-disagree");
+            }
+            w
+        };
+        if refround(&want, bb, p, m) != f {
+            rec.hit("MACHINERY:oracles-disagree");
+        }
+        rec.hit(if long { "oracle:analytic(long significand)" } else { "oracle:scan+analytic" });
         let pow = s.abs() == 1;
         let class = format!("{},{}-base,{}", MODES[m], if b % 2 == 0 { "even" } else { "odd" }, if pow { "power-of-base" } else { "general" });
         rec.hit(if pk == 0 { "p=digits" } else { "p>digits" });
@@ -1142,7 +1216,10 @@ pub fn run(ctx: &mut Ctx) {
         }
         rec.sample(|| format!("{} -> {}", case(), want.show()));
     });
-    ctx.require_classes("fbig.values x modes x precisions", &["Zero", "Away", "Down", "Up", "HalfAway", "HalfEven", "power-of-base", "general", "expected-is-f", "expected-simpler-than-f"]);
+    if ctx.sweeps.last().map_or(false, |s| s.classes.contains_key("MACHINERY:oracles-disagree")) {
+        ctx.machinery("C18: the scan oracle and the analytic oracle for simplest_from_float disagree");
+    }
+    ctx.require_classes("fbig.values x modes x precisions", &["oracle:scan+analytic", "oracle:analytic(long significand)", "Zero", "Away", "Down", "Up", "HalfAway", "HalfEven", "power-of-base", "general", "expected-is-f", "expected-simpler-than-f"]);
 
     // zero, infinities, unlimited precision
     let bases: Vec<u32> = funi.iter().map(|x| x.0).collect();
